@@ -349,3 +349,6 @@ PROPS["C09"] = {
                   "noZero_sound, hasZeroBy_sound, feasibility_refuted. Every output of every generated call is decided by these rules or tagged uncertified.",
     "level_note": "Trusted: Lean kernel + Mathlib; dumper/driver glue; sampled systems, boxes and parameters. Fixed: PdcHansenFeasibility false YES (non-inflating mode).",
 }
+
+from props_C20 import ENTRY as _C20
+PROPS["C20"] = _C20
